@@ -102,11 +102,17 @@ def run(ctx):
             score_pl = [p for p in pls if p.root == ('param', 2)]
             height_pl = [p for p in pls if p.root == ('param', 1) and p.fields[-1:] == ('height',)]
             other = [p for p in pls if p not in score_pl and p not in height_pl]
-            arith = [x for x in rk.walk() if x.kind in ('bin', 'un')]
-            ok = bool(score_pl) and bool(height_pl) and not other and not arith
+            arith = [x for x in rk.walk() if x.kind in ('bin', 'un', 'const', 'cast')]
+            # besides the option plumbing nothing transforms the rank (clamping negative scores to 0 makes them tie)
+            plumbing = ('unwrap_or', 'unwrap_or_else', 'map_or', 'map_or_else', 'copied', 'cloned', 'clone', 'deref',
+                        'unwrap', 'as_ref', 'unwrap_or_default')
+            calls = [x.name.rsplit('::', 1)[-1] for x in rk.walk() if x.kind == 'call' and
+                     x.name.rsplit('::', 1)[-1] not in plumbing]
+            ok = bool(score_pl) and bool(height_pl) and not other and not arith and not calls
         ctx.check(ok, R, cn, 'rank=score-or-height', repr(rk), 'rank is %r (expected score.unwrap_or(bbox.height))' % rk)
         n += 1
-        okb = m.get('bbox') is not None and m['bbox'].strip().root == ('param', 1) and m['index'].strip().root == ('param', 3)
+        okb = m.get('bbox') is not None and m['bbox'].strip().root == ('param', 1) and (
+            m.get('index') is None or m['index'].strip().root == ('param', 3))
         ctx.check(okb, R, cn, 'candidate-keeps-its-box-and-id', '', 'Candidate::new does not keep (bbox, index) of its arguments')
     ctx.floor(R, n, 4)
     # ---------------- R14.2
